@@ -45,6 +45,37 @@ Theorem C19_v4_forms_same_address : forall b, length b = 4%nat -> to16 (v4prefix
 Proof. exact to16_v4_forms. Qed.
 Print Assumptions C19_v4_forms_same_address.
 
+(* RELOAD.  IPTable.Update swaps the dictionary pointer atomically; IPTable.Search reads the pointer once and
+   performs the single-address lookup and the range lookup on that snapshot.  [cell t] is the pointer at time t,
+   t1 <= t2 <= t3 the times of the three steps.  Whatever Updates land while the Search is in flight, its answer
+   is the exact membership answer of ONE dictionary version that was current during the Search ... *)
+Theorem C19_search_during_update_exact : forall sorter, valid_sorter sorter ->
+  forall (sg : nat -> list Z) (items : nat -> list rng) t1 t2 t3 ip,
+  (forall t, forallb wf_rng (items t) = true) -> (t1 <= t2 <= t3)%nat ->
+  exists t, (t1 <= t <= t3)%nat /\
+    search_during (fun t => (sg t, build sorter (items t))) t1 t2 t3 ip = spec (sg t) (items t) ip.
+Proof. exact search_during_exact. Qed.
+Print Assumptions C19_search_during_update_exact.
+
+(* ... in particular an address that is a member of every version is always reported (a blocked client does not
+   slip through during a reload). *)
+Theorem C19_member_of_all_versions_found : forall sorter, valid_sorter sorter ->
+  forall (sg : nat -> list Z) (items : nat -> list rng) t1 t2 t3 ip,
+  (forall t, forallb wf_rng (items t) = true) -> (t1 <= t2 <= t3)%nat ->
+  (forall t, spec (sg t) (items t) ip = true) ->
+  search_during (fun t => (sg t, build sorter (items t))) t1 t2 t3 ip = true.
+Proof. exact search_during_member_of_all. Qed.
+Print Assumptions C19_member_of_all_versions_found.
+
+(* Contrast (what the harness must tell apart): a lookup whose range half re-reads the live pointer mixes the
+   old single-address set with the new ranges: 15 is in both versions and is reported absent. *)
+Example C19_live_pointer_not_linearizable :
+  let old := ([], [(10, 20)]) in let new := ([15], []) in
+  let cell := fun t => if (t <? 2)%nat then old else new in
+  vsearch old 15 = true /\ vsearch new 15 = true /\
+  search_during cell 0 1 2 15 = true /\ search_during_live cell 0 1 2 15 = false.
+Proof. exact search_live_not_linearizable. Qed.
+
 (* CENTRAL: the executable predicate the harness evaluates on the implementation's answers holds of the model
    on every well-formed (= decodable) wire input; there is no known-finding class any more (kf_C19 = 0). *)
 Theorem C19_prop_of_model : forall v, wf_C19 v = true -> kf_C19 v = 0 -> prop_C19 v (run_C19 v) = true.
